@@ -28,6 +28,15 @@ MA_ACTIONS = [
 ]
 
 
+# parameter-less actions with quantifiers (single-agent plans only: they name no agent)
+NULLARY_ACTIONS = [
+    ("reset", [], ["and", ["r"]],
+     ["and", ["forall", ["?z", "-", "t1"], ["when", ["p", "?z"], ["not", ["p", "?z"]]]], ["increase", ["g"], "1"]]),
+    ("finish", [], ["and", ["forall", ["?z", "-", "t1"], ["or", ["p", "?z"], ["r"]]]],
+     ["and", ["not", ["r"]], ["decrease", ["g"], "1"]]),
+]
+
+
 def ma_domain_text(const=False, actions=None):
     acts = [(n, p, pre, eff) for n, p, pre, eff in (actions or MA_ACTIONS)]
     return G.domain_text(acts, const=const)
